@@ -825,10 +825,45 @@ def _s5_cte_names(program, res):
         raise AnalysisError(f"C04-S5: only {n} NearSQL step constructions with query_name= found outside near_sql.py")
 
 
+def clause_pushdown_rule(program, res, rule="C04-S1"):
+    """Each converter wraps the step below it in a SELECT of its own; its clause (WHERE, ORDER BY, LIMIT: the `suffix`) is then evaluated on the rows the
+    sub-step *returns*.  Writing the clause into the sub-step's own SELECT instead (`subsql.suffix = …`) evaluates it next to that step's terms: a WHERE runs
+    before the window functions of the same SELECT, so `extend({'s': 'v.sum()'}, partition_by=['g']).select_rows('o > 1')` would sum over the filtered rows.
+    Such a push-down is admissible only under a test that the sub-step has no windowed term"""
+    sm = program.cls("sql_model", "SQLModel")
+    n = 0
+    for m in sm.methods.values():
+        if not m.name.endswith("_to_near_sql"):
+            continue
+        n += 1
+        subs = {t.id for st in ast.walk(m.node) if isinstance(st, ast.Assign) and isinstance(st.value, ast.Call) and isinstance(st.value.func, ast.Attribute)
+                and st.value.func.attr == "to_near_sql_implementation_" for t in st.targets if isinstance(t, ast.Name)}
+        writes = [st for st in ast.walk(m.node) if isinstance(st, (ast.Assign, ast.AugAssign))
+                  for t in (st.targets if isinstance(st, ast.Assign) else [st.target])
+                  if isinstance(t, ast.Attribute) and t.attr == "suffix" and isinstance(t.value, ast.Name) and t.value.id in subs]
+        if not writes:
+            res.ok(rule, f"{m.name}: the step's clause goes into a SELECT of its own, not into the sub-step", nontrivial=False)
+            continue
+        res.analysed(m)
+        g = cfgmod.build(m.node)
+        for w in writes:
+            node = next((x for x in g.stmt_nodes(("stmt",)) if x.stmt is w), None)
+            guards = [unparse(b.cond) for b, _l in g.lexical_guards(node)] if node is not None else []
+            if any(k in t_ for t_ in guards for k in ("windowed", "OVER", "implies_windowed", "partition_by", "order_by")):
+                res.ok(rule, f"{m.name}: a clause is written into the sub-step only under a test for windowed terms")
+            else:
+                res.fail_at(rule, m, f"clause-written-into-sub-step:{m.name}",
+                            f"`{unparse(w)[:60]}` puts this step's clause into the SELECT of the step below, under tests that do not ask whether that SELECT has window "
+                            f"functions: SQL evaluates WHERE before them, so a windowed extend followed by select_rows on pass-through columns aggregates over the filtered "
+                            f"rows while Pandas (and the un-merged SQL) filter afterwards", w)
+    res.expect_count(rule, "SQL step converters", n, 8)
+
+
 def run(program, res, tier):
     res.rule("C04-S1", "CTE cache key coherent with step content; merge guard and declared dependencies complete")
     res.rule("C04-S2", "WITH re-wrap forwards every emitted field")
     res.rule("C04-S3", "format options reach only layout: whitespace, comments, comma layout, WITH-vs-nested")
+    clause_pushdown_rule(program, res)
     _s1a(program, res)
     _s1b(program, res)
     _s1d(program, res)
